@@ -180,3 +180,7 @@ Definition sm_c07_lenient : sel_case -> bool := sm_c07_with check_agg_lenient.
 Definition sm_c18 (c : sel_case) : bool :=
   let '(_, _, g) := c in
   match g with GPanic | GTimeout => false | _ => true end.
+
+(* the hypotheses of C18_select_no_panic, evaluated on every correspondence case *)
+Definition hyp_c18 (c : sel_case) : bool :=
+  let '(d, q, _) := c in parser_shape q && db_wf d.
